@@ -256,6 +256,23 @@ pub fn run_scenario(s: &Scn, tag: &str) -> Result<ScnOutcome, Fail> {
             )));
         }
     }
+    // a connection that connected well before the flag was set had been accepted (the loop accepts at
+    // once while it runs) - however long it then waited for a worker, it is served before listen() returns
+    if let Some(tf) = t_flag {
+        for j in &obs {
+            let Some(tj) = j.connect else { continue };
+            if j.plan.calls == 0 || !j.bytes.is_empty() {
+                continue;
+            }
+            if tj + Duration::from_millis(150) < tf {
+                return Ok(ScnOutcome::Unserved(format!(
+                    "connection #{} connected {} ms before the stop flag was set (so it had been accepted), waited for a worker, and got no reply: listen() returned without serving it",
+                    j.number,
+                    ms(tf, tj)
+                )));
+            }
+        }
+    }
     for &i in &s.must_serve {
         if let Some(o) = obs.iter().find(|o| o.number == i) {
             // only meaningful when the measured times confirm the plan: connection 0 accepted first,
@@ -360,6 +377,13 @@ fn fixed_family() -> Vec<Scn> {
         v.push(Scn { idle: 0, flag_ms: Some(300), workers, conns: vec![c(50, 200, 2, None)], must_serve: vec![] });
         v.push(Scn { idle: 0, flag_ms: Some(300), workers, conns: vec![c(100, 900, 1, None)], must_serve: vec![] });
         v.push(Scn { idle: 0, flag_ms: Some(400), workers, conns: vec![c(100, 1000, 1, Some(395))], must_serve: vec![] });
+        if workers.1 == 1 {
+            // a saturated pool: connection 1 is accepted while connection 0 occupies the only worker, the
+            // flag is set, connection 0 ends - connection 1 was accepted before the flag and is served
+            // to completion before listen() returns
+            v.push(Scn { idle: 0, flag_ms: Some(300), workers, conns: vec![c(0, 600, 1, None), c(100, 1000, 2, None)], must_serve: vec![1] });
+            v.push(Scn { idle: 0, flag_ms: Some(250), workers, conns: vec![c(0, 500, 1, None), c(60, 900, 1, Some(650)), c(120, 1100, 3, None)], must_serve: vec![1, 2] });
+        }
         if workers.1 > 1 {
             // connection 0 pins the phase of the 100 ms poll (the loop restarts its wait after every
             // accept); the flag is set 20-30 ms into a poll interval and connection 1 arrives later in
